@@ -893,6 +893,7 @@ class Program:
         self.inline_mode = False
         self.raw_fns = self.fns
         self.requested = set()
+        self.recording = False
         self.fns = FnView(self, self.raw_fns)
         self._callers = None
         self._edges = None
@@ -981,7 +982,7 @@ class Program:
         f = self.fns.get(fid)
         if f is None:
             raise AnchorMissing("function `%s` not found" % fid)
-        if not self.inline_mode:
+        if not self.inline_mode and self.recording:
             self.requested.add(fid)
         return f
 
@@ -996,14 +997,14 @@ class Program:
              and (f.impl_trait == trait)]
         if len(c) != 1:
             raise AnchorMissing("method `%s` of `%s`%s: %d candidates" % (name, adt, " as " + trait if trait else "", len(c)))
-        if not self.inline_mode:
+        if not self.inline_mode and self.recording:
             self.requested.add(c[0].id)
         return self.fns[c[0].id]        # a lookup by name: the inlined view when the inlined evaluation is on
 
     def find_fns(self, pattern):
         rx = re.compile(pattern)
         hits = [k for k, f in sorted(self.fns.items()) if rx.search(k)]
-        if not self.inline_mode:
+        if not self.inline_mode and self.recording:
             self.requested.update(hits)
         return [self.fns[k] for k in hits]     # lookups by name: inlined views when on
 
